@@ -199,6 +199,10 @@ structure World where
   now : Nat := 0
   /-- handler calls so far -/
   calls : Nat := 0
+  /-- some fuel-bounded loop of the model ran out of fuel (never happens for the fuels the model
+  passes; `pollTop` turns it into an error so that no theorem about a `Pending`/`Ready` result
+  has to consider truncated loops) -/
+  fuelOut : Bool := false
 
 def World.sem (w : World) (x : Src) : Sem := w.sems x
 
@@ -219,6 +223,8 @@ def World.fire (w : World) (x : Src) : World :=
 
 def World.wake (w : World) : World := { w with woken := true }
 
+def World.outOfFuel (w : World) : World := { w with fuelOut := true }
+
 def World.chan (w : World) (rid : Nat) : Chan := w.chans.getD rid {}
 
 def World.setChan (w : World) (rid : Nat) (c : Chan) : World :=
@@ -233,7 +239,7 @@ inductive ReadRes where
 /-- one `poll_read` call (`c04_sim.rs` `Sock::poll_read`); `fuel` bounds the skipping of
 barriers / empty ops -/
 def sockRead (q : Nat) : Nat → World → ReadRes × World
-  | 0, w => (.pending, w)
+  | 0, w => (.pending, w.outOfFuel)
   | fuel + 1, w =>
     match w.rops with
     | [] =>
@@ -255,7 +261,7 @@ def sockRead (q : Nat) : Nat → World → ReadRes × World
 
 /-- one `poll_write` call offering `offered > 0` bytes -/
 def sockWrite : Nat → World → Nat → WriteAns × World
-  | 0, w, _ => (.pending, w)
+  | 0, w, _ => (.pending, w.outOfFuel)
   | fuel + 1, w, offered =>
     match w.wops with
     | [] => (.accept offered, { w with accepted := w.accepted + offered, dirty := true })
@@ -273,7 +279,7 @@ def World.writeFuel (w : World) : Nat := w.wops.length + 1
 
 /-- `io.poll_flush` -/
 def sockFlush : Nat → World → Bool × World
-  | 0, w => (false, w)
+  | 0, w => (false, w.outOfFuel)
   | fuel + 1, w =>
     if !w.dirty then (true, w)
     else
@@ -287,7 +293,7 @@ def sockFlush : Nat → World → Bool × World
 
 /-- `io.poll_shutdown` -/
 def sockShutdown : Nat → World → Bool × World
-  | 0, w => (false, w)
+  | 0, w => (false, w.outOfFuel)
   | fuel + 1, w =>
     let w := { w with shutdownCalled := true }
     match w.sops with
@@ -419,7 +425,7 @@ inductive Msg where
   deriving Repr
 
 inductive ErrKind where
-  | ioReset | writeZero | body | disconnectTimeout | tooLarge
+  | ioReset | writeZero | body | disconnectTimeout | tooLarge | fuel
   deriving Repr, DecidableEq
 
 structure D where
@@ -558,7 +564,7 @@ inductive HRes where
 
 /-- poll the scripted handler future (`c04_sim.rs` `HandlerFut::poll`) -/
 def pollHandler (e : Env) : Nat → HFut → World → HRes × HFut × World
-  | 0, h, w => (.pending, h, w)
+  | 0, h, w => (.pending, h, w.outOfFuel)
   | fuel + 1, h, w =>
     match h.steps with
     | [] => (.ready, h, w)
@@ -603,7 +609,7 @@ inductive BRes where
 
 /-- poll the scripted response body (`c04_sim.rs` `ScriptBody::poll_next`) -/
 def pollBody : Nat → BFut → World → BRes × BFut × World
-  | 0, b, w => (.pending, b, w)
+  | 0, b, w => (.pending, b, w.outOfFuel)
   | fuel + 1, b, w =>
     match b.steps with
     | [] => (.done, b, w)
@@ -651,7 +657,7 @@ def isNone : St → Bool
 
 /-- the decode loop of `poll_request` (l.896–1026); returns `updated` -/
 def decodeLoop (e : Env) : Nat → D → World → Bool → Bool × D × World
-  | 0, d, w, upd => (upd, d, w)
+  | 0, d, w, upd => (upd, d, w.outOfFuel)
   | fuel + 1, d, w, upd =>
     match decodeOne d.pendSegs d.rb with
     | (.item rid body, segs, rb) =>
@@ -697,7 +703,7 @@ inductive PR where
 /-- the `while write_buf.len() < h1_write_buffer_size` loop of `State::SendPayload` (l.650–704);
 `none` = `continue 'res` -/
 def sendLoop (e : Env) : Nat → D → BFut → World → Option PR × D × World
-  | 0, d, b, w => (some .doNothing, { d with st := .sendPayload b }, w)
+  | 0, d, b, w => (some .doNothing, { d with st := .sendPayload b }, w.outOfFuel)
   | fuel + 1, d, b, w =>
     if d.wlen < e.cfg.wbs then
       match pollBody (b.steps.length + 2) b w with
@@ -713,7 +719,7 @@ def sendLoop (e : Env) : Nat → D → BFut → World → Option PR × D × Worl
 
 /-- `poll_response` (l.565) -/
 def pollResponse (e : Env) : Nat → D → World → PR × D × World
-  | 0, d, w => (.doNothing, d, w)
+  | 0, d, w => (.doNothing, d, w.outOfFuel)
   | fuel + 1, d, w =>
     match d.st with
     | .none =>
@@ -748,7 +754,7 @@ inductive RA where
 
 /-- the loop of `read_available` (l.1170) -/
 def readLoop (e : Env) : Nat → D → World → Bool → RA × D × World
-  | 0, d, w, _ => (.ok false, d, w)
+  | 0, d, w, _ => (.ok false, d, w.outOfFuel)
   | fuel + 1, d, w, readSome =>
     if d.rb ≥ Consts.h1MaxBufferSize then
       match d.payload with
@@ -819,7 +825,7 @@ inductive LR where
 
 /-- the read-and-discard loop of `poll_linger` (l.415) -/
 def lingerLoop (e : Env) : Nat → D → World → LR × D × World
-  | 0, d, w => (.pending, d, w)
+  | 0, d, w => (.pending, d, w.outOfFuel)
   | fuel + 1, d, w =>
     match readAvailable e d w with
     | (.err, d, w) => (.err .ioReset, d, w)
@@ -855,7 +861,7 @@ inductive PollRes where
 
 /-- the `loop { poll_response; poll_flush }` of the normal branch (l.1357–1405) -/
 def respFlushLoop (e : Env) (prFuel : Nat) : Nat → D → World → Option ErrKind × D × World
-  | 0, d, w => (none, d, w)
+  | 0, d, w => (none, d, w.outOfFuel)
   | fuel + 1, d, w =>
     match pollResponse e prFuel d w with
     | (.err k, d, w) => (some k, d, w)
@@ -874,7 +880,7 @@ def respFlushLoop (e : Env) (prFuel : Nat) : Nat → D → World → Option ErrK
 
 /-- `Dispatcher::poll` (l.1277), `DispatcherState::Normal`. `depth` bounds `return self.poll(cx)`. -/
 def poll (e : Env) (bigFuel : Nat) : Nat → D → World → PollRes × D × World
-  | 0, d, w => (.pending, d, w)
+  | 0, d, w => (.pending, d, w.outOfFuel)
   | depth + 1, d, w =>
     match pollTimers e d w with
     | (some k, d, w) => (.err k, d, w)
@@ -936,14 +942,21 @@ def poll (e : Env) (bigFuel : Nat) : Nat → D → World → PollRes × D × Wor
               else if stNone && d.wlen = 0 && d.flags.shutdown then
                 poll e bigFuel depth d w
               else
-                -- fix (C04): a payload dropped after this poll saw it paused leaves buffered
-                -- input (and, at the cap, an unregistered socket) that nothing would wake the
-                -- task for
+                -- fix (C04) (A): the socket was not polled because `read_buf` was at its cap and
+                -- the buffer has been drained since: resume reading
+                let resumeRead :=
+                  readBufWasFull && decide (d.rb < Consts.h1MaxBufferSize) && !d.flags.readDisc
+                -- fix (C04) (B): a payload dropped after `poll_request` saw it paused leaves
+                -- buffered input that nothing would wake the task for
                 let drainDropped :=
                   (match d.payload with | some rid => isDropped w rid | none => false) &&
-                  (d.rb > 0 || readBufWasFull) && !d.flags.readDisc &&
-                  d.messages.length < Consts.h1MaxPipelined
-                if drainDropped || d.flags.linger || d.flags.shutdown then (.pending, d, w.wake)
+                  d.rb > 0 && !d.flags.readDisc && d.messages.length < Consts.h1MaxPipelined
+                if resumeRead || drainDropped || d.flags.linger || d.flags.shutdown then (.pending, d, w.wake)
                 else (.pending, d, w)
+
+/-- one `Dispatcher::poll` call by the executor (`return self.poll(cx)` happens at most once) -/
+def pollTop (e : Env) (bigFuel : Nat) (d : D) (w : World) : PollRes × D × World :=
+  match poll e bigFuel 2 d w with
+  | (r, d', w') => if w'.fuelOut then (.err .fuel, d', w') else (r, d', w')
 
 end ActixModel.DispWake
